@@ -14,6 +14,7 @@ import Driver.Partition
 import Driver.Power
 import Driver.Verifreg
 import Driver.Market
+import Driver.Evm
 
 /-- generic stdin/stdout loop over a pure handler -/
 partial def loop {σ : Type} (h : IO.FS.Stream) (out : IO.FS.Stream) (step : σ → String → σ × String)
@@ -47,4 +48,5 @@ def main (args : List String) : IO UInt32 := do
   | ["verifreg"] =>
     loop stdin stdout Driver.Verifreg.handle { sys := BA.Verifreg.init 0 [] }; return 0
   | ["market"] => loop stdin stdout Driver.Market.handle BA.Market.init; return 0
+  | ["evm"] => loop stdin stdout Driver.Evm.handle (); return 0
   | _ => IO.eprintln "usage: driver <model>"; return 2
